@@ -3,6 +3,7 @@ import Pyunicorn.Lemmas.NsiDist
 import Pyunicorn.Lemmas.NsiBetw
 import Pyunicorn.Lemmas.NsiBfs
 import Pyunicorn.Lemmas.NsiRw
+import Pyunicorn.Lemmas.NsiEig
 import Pyunicorn.Model.NsiMeasures
 /-!
 # C02 — Node-splitting invariance of all n.s.i. measures
@@ -506,6 +507,189 @@ theorem nsi_degree_histogram_bins_split (G : Gr) (v : Nat) (p : Rat) (hv : v < G
 example : spreadMoment pathGd 2 0 = spreadMoment (split pathGd 1 (1/4)) 2 0 ∧ spreadMoment pathGd 2 0 = 75 ∧
     histNBins pathGd = 3 ∧ histLowerBounds (split pathGd 1 (1/4)) = [3, 4, 5] := by
   decide +kernel
+
+
+/-! ### round 5: `nsi_eigenvector_centrality`
+
+The code (core/network.py) hands `sp_Astar = Dw^½ A⁺ Dw^½` to `eigsh(k=1, sigma=2W)`, which returns
+*some* non-zero eigenvector `u` (any sign, any scale) of the largest eigenvalue, divides it by
+`sqrt w`, multiplies by the sign of entry 0 and divides by the maximum.  Eigenvectors are in
+general irrational, so the statements are over an arbitrary linearly ordered field `K` containing
+the (rational) weights.  `astar_eigenvectors` removes the square roots: `u` is an eigenvector of
+`sp_Astar` iff `ec = u / sqrt w` is one of the n.s.i. adjacency matrix `A⁺ D_w` (`IsEig`). -/
+
+section eigen
+variable {K : Type} [Field K] [LinearOrder K] [IsStrictOrderedRing K]
+
+/-- `u` eigenvector of `DwR * sp_Aplus * DwR` ⇔ `u / sqrt w` eigenvector of `sp_Aplus * sp_diag_w`
+(`r` = any positive square roots of the weights in `K`) -/
+theorem astar_eigenvectors (G : Gr) (lam : K) (r u : Nat → K) (hr : ∀ i, i < G.n → 0 < r i)
+    (hrr : ∀ i, i < G.n → r i * r i = ((G.w i : Rat) : K)) :
+    (∀ i, i < G.n → ∑ j ∈ Finset.range G.n, r i * ((aplus G i j : Rat) : K) * r j * u j = lam * u i)
+      ↔ IsEig G lam (fun i => u i / r i) :=
+  astar_eig_iff G lam r u hr hrr
+
+/-- eigenvectors of the n.s.i. adjacency matrix pull back along the collapse map with the same
+eigenvalue (every graph, directed or not, every `p`, every eigenvalue) -/
+theorem nsi_adjacency_eigenvector_pullback (G : Gr) (v : Nat) (p : Rat) (hv : v < G.n) (lam : K)
+    (x : Nat → K) (hx : IsEig G lam x) :
+    IsEig (split G v p) lam (fun k => x (collapse G.n v k)) :=
+  eig_pullback G v p hv lam x hx
+
+/-- **Perron, domination**: with positive node weights the eigenvalue of a positive eigenvector is
+the largest eigenvalue — the one `eigsh(sigma = 2W)` selects -/
+theorem positive_eigenvector_is_top (G : Gr) (hw : ∀ j, j < G.n → 0 < G.w j) (lam : K)
+    (x : Nat → K) (hx : PosVec G.n x) (hxe : IsEig G lam x) : IsTop G lam :=
+  eig_le_of_pos G hw lam x hx hxe
+
+/-- **Perron, uniqueness**: on a connected network with positive weights the eigenspace of that
+eigenvalue is the line through the positive eigenvector -/
+theorem top_eigenvector_unique (G : Gr) (hw : ∀ j, j < G.n → 0 < G.w j) (hconn : Connected G)
+    (lam : K) (x y : Nat → K) (hx : PosVec G.n x) (hxe : IsEig G lam x) (hye : IsEig G lam y) :
+    ∃ t : K, ∀ i, i < G.n → y i = t * x i :=
+  eig_unique G hw hconn lam x y hx hxe hye
+
+/-- the split copy of a connected loop-free network is connected -/
+theorem split_is_connected (G : Gr) (v : Nat) (p : Rat) (hv : v < G.n)
+    (hloop : ∀ i, G.adj i i = false) (hconn : Connected G) : Connected (split G v p) :=
+  split_connected G v p hv hloop hconn
+
+/-- what the code returns for a connected network that has a positive eigenvector `x`: for
+**every** non-zero eigenvector `y` of the largest eigenvalue (whatever sign and scale `eigsh`
+chose), the normalised output is `x / max x` -/
+theorem nsi_eigenvector_centrality_value (G : Gr) (hn : 0 < G.n) (hw : ∀ j, j < G.n → 0 < G.w j)
+    (hconn : Connected G) (lam : K) (x : Nat → K) (hx : PosVec G.n x) (hxe : IsEig G lam x)
+    (mu : K) (y : Nat → K) (hye : IsEig G mu y) (hy : NonZero G.n y) (hmu : IsTop G mu)
+    (e : Nat → K) (he : IsEcOutput G.n y e) :
+    mu = lam ∧ ∃ mx : K, (∀ i, i < G.n → x i ≤ mx) ∧ (∃ i, i < G.n ∧ x i = mx) ∧
+      ∀ i, i < G.n → e i = x i / mx := by
+  have h1 : mu ≤ lam := eig_le_of_pos G hw lam x hx hxe mu y hye hy
+  have h2 : lam ≤ mu := hmu lam x hxe ⟨0, hn, ne_of_gt (hx 0 hn)⟩
+  have hml : mu = lam := le_antisymm h1 h2
+  subst hml
+  obtain ⟨t, ht⟩ := eig_unique G hw hconn mu x y hx hxe hye
+  have ht0 : t ≠ 0 := by
+    rintro rfl
+    obtain ⟨i, hi, hyi⟩ := hy
+    exact hyi (by rw [ht i hi, zero_mul])
+  exact ⟨rfl, ecOutput_of_multiple G.n hn x y e t ht0 hx ht he⟩
+
+/-- **Node-splitting invariance of `nsi_eigenvector_centrality`.**  For every connected loop-free
+network with positive node weights that has a positive eigenvector (Perron–Frobenius guarantees one
+over ℝ; its existence is the only assumption, and only for the *original* network), every node
+`v`, every `0 < p < 1`: whatever non-zero eigenvectors `y`, `y'` of the largest eigenvalues
+`eigsh` returns for the network and for its split copy, the normalised outputs `e`, `e'` agree on
+untouched nodes and both twins carry `v`'s value.  The largest eigenvalue is invariant as well. -/
+theorem nsi_eigenvector_centrality_split (G : Gr) (v : Nat) (p : Rat) (hv : v < G.n)
+    (hp0 : 0 < p) (hp1 : p < 1) (hloop : ∀ i, G.adj i i = false)
+    (hw : ∀ j, j < G.n → 0 < G.w j) (hconn : Connected G)
+    (lam : K) (x : Nat → K) (hx : PosVec G.n x) (hxe : IsEig G lam x)
+    (mu : K) (y : Nat → K) (hye : IsEig G mu y) (hy : NonZero G.n y) (hmu : IsTop G mu)
+    (mu' : K) (y' : Nat → K) (hye' : IsEig (split G v p) mu' y') (hy' : NonZero (G.n + 1) y')
+    (hmu' : IsTop (split G v p) mu')
+    (e e' : Nat → K) (he : IsEcOutput G.n y e) (he' : IsEcOutput (G.n + 1) y' e') :
+    mu' = mu ∧ ∀ a, a < G.n + 1 → e' a = e (collapse G.n v a) := by
+  have hn : 0 < G.n := by omega
+  obtain ⟨h1, mx, hle, ⟨i1, hi1, hmx⟩, hev⟩ :=
+    nsi_eigenvector_centrality_value G hn hw hconn lam x hx hxe mu y hye hy hmu e he
+  have hx' : PosVec (split G v p).n (fun k => x (collapse G.n v k)) :=
+    fun k hk => hx _ (collapse_lt_n _ _ _ hv hk)
+  obtain ⟨h1', mx', hle', ⟨i1', hi1', hmx'⟩, hev'⟩ :=
+    nsi_eigenvector_centrality_value (split G v p) (Nat.succ_pos _)
+      (split_weights_pos G v p hv hp0 hp1 hw) (split_connected G v p hv hloop hconn) lam _ hx'
+      (eig_pullback G v p hv lam x hxe) mu' y' hye' hy' hmu' e' he'
+  have hmm : mx' = mx := by
+    apply le_antisymm
+    · rw [← hmx']; exact hle _ (collapse_lt_n _ _ _ hv hi1')
+    · rw [← hmx]
+      have := hle' i1 (Nat.lt_succ_of_lt hi1)
+      simpa [collapse_lt _ _ _ hi1] using this
+  refine ⟨by rw [h1', h1], fun a ha => ?_⟩
+  rw [hev' a ha, hev _ (collapse_lt_n _ _ _ hv ha), hmm]
+
+end eigen
+
+
+/-- the driver's flag `conn` decides the hypothesis `Connected` (by
+`bfs_distances_are_shortest_paths`) -/
+theorem connected_iff_bfs (G : Gr) : isConnected G = true ↔ Connected G := by
+  unfold isConnected Connected
+  simp only [List.all_eq_true, List.mem_range]
+  constructor
+  · intro h i j hi hj
+    have hd := bfsDist_isDist G i j hi
+    have hs := h i hi j hj
+    cases hb : bfsDist G i j with
+    | none => rw [hb] at hs; simp at hs
+    | some d => rw [hb] at hd; exact ⟨d, hd.1⟩
+  · intro h i hi j hj
+    have hd := bfsDist_isDist G i j hi
+    cases hb : bfsDist G i j with
+    | none =>
+      rw [hb] at hd
+      obtain ⟨k, wk⟩ := h i j hi hj
+      exact absurd wk (hd k)
+    | some d => simp
+
+
+/-- the driver's exact residual `eigResid` (cross-multiplied, `s` = any index with `x s ≠ 0`)
+vanishes only for eigenvectors: the harness bounds it for the vector the implementation returns -/
+theorem eig_of_resid_zero (G : Gr) (x : Nat → Rat) (s : Nat) (hs : x s ≠ 0)
+    (h : ∀ i, i < G.n → nsiAdjApply G x i * x s - nsiAdjApply G x s * x i = 0) :
+    IsEig (K := Rat) G (nsiAdjApply G x s / x s) x := by
+  intro i hi
+  rw [adjK_rat]
+  have := h i hi
+  field_simp
+  linarith
+
+/-- non-vacuity: the path 0–1–2 with weights 3, 2, 3 is connected and has the positive eigenvector
+`(1, 3/2, 1)` for the eigenvalue 6; the code's normalisation gives `(2/3, 1, 2/3)` on the network
+and `(2/3, 1, 2/3, 1)` on the copy with node 1 split — from any multiple, e.g. `−2·x` -/
+def eigG : Gr :=
+  { n := 3, adj := fun i j => (i, j) ∈ [(0, 1), (1, 0), (1, 2), (2, 1)],
+    w := fun k => [3, 2, 3].getD k 0, la := fun _ _ _ => 0, grp := fun _ _ => false,
+    dist := fun _ _ => none }
+
+def eigX (k : Nat) : Rat := [1, 3/2, 1].getD k 0
+
+example : (List.range 3).all (fun i => nsiAdjApply eigG eigX i == 6 * eigX i) = true ∧
+    (List.range 4).all (fun a => nsiAdjApply (split eigG 1 (1/4)) (fun k => eigX (collapse 3 1 k)) a
+      == 6 * eigX (collapse 3 1 a)) = true ∧
+    (List.range 3).map (ecNorm 3 fun k => -2 * eigX k) = [2/3, 1, 2/3] ∧
+    (List.range 4).map (ecNorm 4 fun k => 5 * eigX (collapse 3 1 k)) = [2/3, 1, 2/3, 1] ∧
+    eigResid eigG eigX = [0, 0, 0] := by
+  decide +kernel
+
+example : IsEig (K := Rat) eigG 6 eigX ∧ PosVec 3 eigX := by
+  refine ⟨fun i hi => ?_, fun i hi => ?_⟩
+  · rw [adjK_rat]
+    have : i = 0 ∨ i = 1 ∨ i = 2 := by
+      have : i < 3 := hi
+      omega
+    rcases this with rfl | rfl | rfl <;> decide +kernel
+  · have : i = 0 ∨ i = 1 ∨ i = 2 := by omega
+    rcases this with rfl | rfl | rfl <;> decide +kernel
+
+
+example : Connected eigG ∧ (∀ i, eigG.adj i i = false) ∧ (∀ j, j < eigG.n → 0 < eigG.w j) := by
+  refine ⟨fun i j hi hj => ?_, fun i => by simp [eigG]; omega, fun j hj => ?_⟩
+  · have hi' : i = 0 ∨ i = 1 ∨ i = 2 := by
+      have : i < 3 := hi
+      omega
+    have hj' : j = 0 ∨ j = 1 ∨ j = 2 := by
+      have : j < 3 := hj
+      omega
+    rcases hi' with rfl | rfl | rfl <;> rcases hj' with rfl | rfl | rfl <;>
+      first
+      | exact ⟨0, Walk.nil _ (by decide)⟩
+      | exact ⟨1, Walk.cons _ _ _ _ (by decide) (by decide) (Walk.nil _ (by decide))⟩
+      | exact ⟨2, Walk.cons _ 1 _ _ (by decide) (by decide)
+          (Walk.cons _ _ _ _ (by decide) (by decide) (Walk.nil _ (by decide)))⟩
+  · have : j = 0 ∨ j = 1 ∨ j = 2 := by
+      have : j < 3 := hj
+      omega
+    rcases this with rfl | rfl | rfl <;> decide +kernel
 
 /-! ### the measures of the library are expressions: invariance of each, by name -/
 
